@@ -463,8 +463,9 @@ def family_id(sig):
 
 def run(ctx):
     ctx.level = "proof"
-    ctx.lean_stage([], ["Verif.Props.C06", "Verif.Props.TokenRules"])
+    ctx.lean_stage([], ["Verif.Props.C06", "Verif.Props.TokenRules", "Verif.Props.ScanRules"])
     import blocks
+    blocks.scanrules(ctx)      # ten scan-only token rules: mdX_scan_iff (sentence-shaped), mdX_faithful_eq_spec vs Model/RuleSpec
     blocks.tokenrules(ctx)     # mdXXX_scan_iff / mdXXX_faithful_eq_spec: the faithful scan of the token rules = the documented condition
     full = space(ctx)
     if ctx.quick():
